@@ -14,7 +14,7 @@ def run(ctx):
                        'notation dispatcher, which compares both; no other literal threshold orders a scale-derived value on the Display call graph. '
                        'ALPHABET (necessary for re-parseability): every str/char/byte literal and every format-template piece that reaches an output '
                        'sink (write_str, write_char, push, insert, resize, pad_integral, format templates) in the call graph of Display, LowerExp, '
-                       'UpperExp, write_scientific/engineering_notation and write_plain_string lies in {0-9 . e E + - _}. NUMERAL-SHAPE: the output of write_scientific_notation, write_engineering_notation, the {:e}/{:E} formatter and the dot-less exponent form is interpreted symbolically - pieces of the digit string, zeros, the point, the exponent - and on every path zeros + exponent - digits after the point equals the digits\' power of ten as a linear identity (all digit counts and scales at once), the pieces cover the digit string exactly once, and each formatting layer hands the next one the same digits, sign and -scale. MOVE-THEN-CLEAR: the zero fill after an in-place shift stops before the moved digits. NOT decided: round-trip '
+                       'UpperExp, write_scientific/engineering_notation and write_plain_string lies in {0-9 . e E + - _}. NUMERAL-SHAPE: the output of write_scientific_notation, write_engineering_notation, the {:e}/{:E} formatter and the dot-less exponent form is interpreted symbolically - pieces of the digit string, zeros, the point, the exponent - and on every path zeros + exponent - digits after the point equals the digits\' power of ten as a linear identity (all digit counts and scales at once), the pieces cover the digit string exactly once, and each formatting layer hands the next one the same digits, sign and -scale. The is_nonnegative flag handed to Formatter::pad_integral derives from the number\'s sign (the minus sign cannot be dropped). MOVE-THEN-CLEAR: the zero fill after an in-place shift stops before the moved digits. NOT decided: round-trip '
                        'equality as such, to_str_radix, the point insertion of the non-exponential Display forms.')
     F = ctx.facts('default', 'rel')
     if not hasattr(F, '_prov'):
@@ -25,6 +25,9 @@ def run(ctx):
     names = F.reach(ents)
     rep.add_functions(names)
     ns, nl = alphabet.check(rep, F, names)
+    from props.c16 import common_pad_integral
+    npd = common_pad_integral(rep, F, F._prov, names)
+    rep.floor('pad_integral calls', npd, 3)
     from rules import numeral
     nn = numeral.check(rep, F)
     rep.floor('numeral-shape obligations', nn, 20)
